@@ -101,9 +101,14 @@ pub struct Spec {
     pub lines: Vec<String>,
 }
 
+/// hdr: 0 = minimal header, 1 = INFO/FILTER definitions, 2 = + samples (simple values),
+/// 3 = + samples with the whole VCF data model: every Number class (1, 2, A, R, G, .), missing
+/// entries inside vectors, missing fields, genotypes of ploidy 1..4 with missing alleles in every
+/// position and both phasings
 pub fn gen_spec(seed: u64, nrec: usize, hdr: u64) -> Spec {
     let mut rng = Rng::new(seed ^ 0xC20B);
     let rng = &mut rng;
+    let rich = hdr >= 3;
     let mut h = String::from(*rng.pick(&["##fileformat=VCFv4.3\n", "##fileformat=VCFv4.2\n"]));
     let nsamples = if hdr >= 2 { rng.range(1, 3) as usize } else { 0 };
     if hdr >= 1 {
@@ -111,6 +116,15 @@ pub fn gen_spec(seed: u64, nrec: usize, hdr: u64) -> Spec {
         h.push_str("##INFO=<ID=AF,Number=A,Type=Float,Description=\"Allele Frequency\">\n");
         h.push_str("##INFO=<ID=DB,Number=0,Type=Flag,Description=\"dbSNP\">\n");
         h.push_str("##INFO=<ID=NM,Number=1,Type=String,Description=\"Name BCF CRAM\">\n");
+        if rich {
+            h.push_str("##INFO=<ID=AC,Number=A,Type=Integer,Description=\"Allele count\">\n");
+            h.push_str("##INFO=<ID=RC,Number=R,Type=Integer,Description=\"Per allele\">\n");
+            h.push_str("##INFO=<ID=GX,Number=G,Type=Float,Description=\"Per genotype\">\n");
+            h.push_str("##INFO=<ID=XI,Number=.,Type=Integer,Description=\"Any ints\">\n");
+            h.push_str("##INFO=<ID=XS,Number=.,Type=String,Description=\"Any strings\">\n");
+            h.push_str("##INFO=<ID=CH,Number=1,Type=Character,Description=\"A char\">\n");
+            h.push_str("##INFO=<ID=FL,Number=2,Type=Float,Description=\"Two floats\">\n");
+        }
         h.push_str("##FILTER=<ID=PASS,Description=\"All filters passed\">\n");
         h.push_str("##FILTER=<ID=q10,Description=\"Quality below 10\">\n");
         h.push_str("##FILTER=<ID=s50,Description=\"Less than 50% of samples have data\">\n");
@@ -121,6 +135,14 @@ pub fn gen_spec(seed: u64, nrec: usize, hdr: u64) -> Spec {
         h.push_str("##FORMAT=<ID=GT,Number=1,Type=String,Description=\"Genotype\">\n");
         h.push_str("##FORMAT=<ID=DP,Number=1,Type=Integer,Description=\"Read Depth\">\n");
         h.push_str("##FORMAT=<ID=HQ,Number=2,Type=Integer,Description=\"Haplotype Quality\">\n");
+        if rich {
+            h.push_str("##FORMAT=<ID=AD,Number=R,Type=Integer,Description=\"Allelic depths\">\n");
+            h.push_str("##FORMAT=<ID=PL,Number=G,Type=Integer,Description=\"Likelihoods\">\n");
+            h.push_str("##FORMAT=<ID=AQ,Number=A,Type=Float,Description=\"Per alt\">\n");
+            h.push_str("##FORMAT=<ID=GF,Number=1,Type=Float,Description=\"Quality\">\n");
+            h.push_str("##FORMAT=<ID=FT,Number=1,Type=String,Description=\"Filter\">\n");
+            h.push_str("##FORMAT=<ID=XV,Number=.,Type=Integer,Description=\"Any ints\">\n");
+        }
     }
     h.push_str("##contig=<ID=sq0,length=100000>\n##contig=<ID=chr1,length=5000>\n");
     h.push_str("#CHROM\tPOS\tID\tREF\tALT\tQUAL\tFILTER\tINFO");
@@ -131,24 +153,37 @@ pub fn gen_spec(seed: u64, nrec: usize, hdr: u64) -> Spec {
         }
     }
     h.push('\n');
+    // a vector of n entries from `vals`, some entries missing (never all of them, never the
+    // whole value: that is the separate "field missing" case)
+    fn vec_of(rng: &mut Rng, n: usize, vals: &[&str], allow_missing: bool) -> String {
+        let mut v: Vec<String> = (0..n.max(1)).map(|_| rng.pick(vals).to_string()).collect();
+        if allow_missing && v.len() >= 2 && rng.chance(1, 3) {
+            let i = rng.below(v.len() as u64) as usize;
+            v[i] = ".".to_string();
+        }
+        v.join(",")
+    }
+    const INTS: &[&str] = &["0", "1", "14", "127", "128", "-120", "-121", "300", "32767", "40000", "70000", "-5"];
+    const FLOATS: &[&str] = &["0.5", "0.25", "1", "0", "0.125", "-2.5", "1000"];
     let mut lines = Vec::new();
-    for i in 0..nrec {
+    for _ in 0..nrec {
         let chrom = *rng.pick(&["sq0", "chr1"]);
         let pos = rng.range(1, 4999);
         let id = if rng.chance(1, 2) { ".".to_string() } else { format!("rs{}", rng.below(100000)) };
         let refb = *rng.pick(&["A", "C", "G", "T", "AC", "GTT"]);
         let nalt = rng.range(1, 2) as usize;
         let alts: Vec<&str> = (0..nalt).map(|j| *rng.pick(if j == 0 { &["G", "T", "CA"][..] } else { &["C", "TTA"][..] })).collect();
+        let nall = nalt + 1;
+        let ngen = nall * (nall + 1) / 2;
         let qual = *rng.pick(&[".", "30", "12.5", "0", "1000", "99.75"]);
         let filter = if hdr >= 1 { *rng.pick(&[".", "PASS", "q10", "q10;s50"]) } else { *rng.pick(&[".", "PASS"]) };
         let mut info = Vec::new();
         if hdr >= 1 {
             if rng.chance(1, 2) {
-                info.push(format!("DP={}", rng.pick(&[0i64, 1, 14, 127, 128, 300, 40000, 70000, -5])));
+                info.push(format!("DP={}", rng.pick(INTS)));
             }
             if rng.chance(1, 2) {
-                let vs: Vec<&str> = (0..nalt).map(|_| *rng.pick(&["0.5", "0.25", "1", "0", "0.125"])).collect();
-                info.push(format!("AF={}", vs.join(",")));
+                info.push(format!("AF={}", vec_of(rng, nalt, FLOATS, rich)));
             }
             if rng.chance(1, 3) {
                 info.push("DB".to_string());
@@ -156,10 +191,45 @@ pub fn gen_spec(seed: u64, nrec: usize, hdr: u64) -> Spec {
             if rng.chance(1, 3) {
                 info.push(format!("NM={}", rng.pick(&["x", "BCF", "a_b", "rs:1"])));
             }
+            if rich {
+                if rng.chance(1, 3) {
+                    info.push(format!("AC={}", vec_of(rng, nalt, INTS, true)));
+                }
+                if rng.chance(1, 3) {
+                    info.push(format!("RC={}", vec_of(rng, nall, INTS, true)));
+                }
+                if rng.chance(1, 3) {
+                    info.push(format!("GX={}", vec_of(rng, ngen, FLOATS, true)));
+                }
+                if rng.chance(1, 3) {
+                    let n = rng.range(1, 4) as usize;
+                    info.push(format!("XI={}", vec_of(rng, n, INTS, true)));
+                }
+                if rng.chance(1, 3) {
+                    let n = rng.range(1, 3) as usize;
+                    info.push(format!("XS={}", vec_of(rng, n, &["a", "bc", "x_y", "BCF"], false)));
+                }
+                if rng.chance(1, 4) {
+                    info.push(format!("CH={}", rng.pick(&["a", "Z", "7"])));
+                }
+                if rng.chance(1, 4) {
+                    info.push(format!("FL={}", vec_of(rng, 2, FLOATS, true)));
+                }
+                if rng.chance(1, 6) {
+                    // a key whose value is missing
+                    info.push(format!("{}=.", rng.pick(&["DP", "XI", "NM", "AF"])));
+                    // keep keys unique
+                    let k = info.last().unwrap().split('=').next().unwrap().to_string();
+                    let last = info.len() - 1;
+                    if info[..last].iter().any(|e| e.split('=').next() == Some(&k)) {
+                        info.pop();
+                    }
+                }
+            }
         }
         let info = if info.is_empty() { ".".to_string() } else { info.join(";") };
         let mut l = format!("{chrom}\t{pos}\t{id}\t{refb}\t{}\t{qual}\t{filter}\t{info}", alts.join(","));
-        if nsamples > 0 {
+        if nsamples > 0 && !rich {
             let shape = rng.below(3);
             l.push_str(match shape {
                 0 => "\tGT",
@@ -177,8 +247,70 @@ pub fn gen_spec(seed: u64, nrec: usize, hdr: u64) -> Spec {
                     l.push_str(&format!(":{},{}", rng.below(100), rng.below(100)));
                 }
             }
+        } else if nsamples > 0 {
+            // keys: GT first when present, then a random subset
+            let mut keys: Vec<&str> = Vec::new();
+            if rng.chance(5, 6) {
+                keys.push("GT");
+            }
+            for k in ["DP", "HQ", "AD", "PL", "AQ", "GF", "FT", "XV"] {
+                if rng.chance(1, 3) {
+                    keys.push(k);
+                }
+            }
+            if keys.is_empty() {
+                keys.push("DP");
+            }
+            l.push('\t');
+            l.push_str(&keys.join(":"));
+            // ploidy is per record or per sample
+            let rec_ploidy = rng.range(1, 4) as usize;
+            for si in 0..nsamples {
+                let ploidy = if rng.chance(1, 4) { rng.range(1, 4) as usize } else { rec_ploidy };
+                let mut vals: Vec<String> = Vec::new();
+                for k in &keys {
+                    // a field missing in one sample, never in all of them: the BCF encoder rejects a
+                    // Float-vector / String FORMAT field that is missing in every sample
+                    // (InvalidInput "missing float array values" / "missing String values")
+                    let whole_missing = *k != "GT" && si > 0 && rng.chance(1, 5);
+                    if whole_missing {
+                        vals.push(".".to_string());
+                        continue;
+                    }
+                    vals.push(match *k {
+                        "GT" => {
+                            let mut g = String::new();
+                            for a in 0..ploidy {
+                                if a > 0 {
+                                    g.push(if rng.chance(1, 2) { '/' } else { '|' });
+                                }
+                                // a haploid missing genotype is the text `.`, i.e. a missing GT
+                                // field, which the BCF encoder rejects (InvalidInput)
+                                if ploidy > 1 && rng.chance(1, 4) {
+                                    g.push('.');
+                                } else {
+                                    g.push_str(&rng.below(nall as u64).to_string());
+                                }
+                            }
+                            g
+                        }
+                        "DP" => rng.pick(INTS).to_string(),
+                        "HQ" => vec_of(rng, 2, INTS, true),
+                        "AD" => vec_of(rng, nall, INTS, true),
+                        "PL" => vec_of(rng, ngen, INTS, true),
+                        "AQ" => vec_of(rng, nalt, FLOATS, true),
+                        "GF" => rng.pick(FLOATS).to_string(),
+                        "FT" => rng.pick(&["PASS", "q10", "lowq"]).to_string(),
+                        _ => {
+                            let n = rng.range(1, 4) as usize;
+                            vec_of(rng, n, INTS, true)
+                        }
+                    });
+                }
+                l.push('\t');
+                l.push_str(&vals.join(":"));
+            }
         }
-        let _ = i;
         lines.push(l);
     }
     Spec { header_text: h, lines }
@@ -273,13 +405,32 @@ struct Prepared {
 }
 
 fn prepare(seed: u64, nrec: usize, hdr: u64) -> Result<Prepared, (String, String)> {
-    let spec = gen_spec(seed, nrec, hdr);
+    prepare_spec(gen_spec(seed, nrec, hdr))
+}
+
+/// explicit data set: VCF text
+fn spec_of_text(text: &[u8]) -> Spec {
+    let t = String::from_utf8_lossy(text).to_string();
+    let mut header_text = String::new();
+    let mut lines = Vec::new();
+    for l in t.split('\n').filter(|l| !l.is_empty()) {
+        if l.starts_with('#') {
+            header_text.push_str(l);
+            header_text.push('\n');
+        } else {
+            lines.push(l.to_string());
+        }
+    }
+    Spec { header_text, lines }
+}
+
+fn prepare_spec(spec: Spec) -> Result<Prepared, (String, String)> {
     if std::env::var("NV_C20_DEBUG").is_ok() {
         eprintln!("{}", String::from_utf8_lossy(&spec.text()));
     }
     let (header, recs) = match parse_spec(&spec.text()) {
         Ok(x) => x,
-        Err(e) => return bad("harness-spec-unparsable", format!("{e}")),
+        Err(e) => return bad("harness-spec-unparsable", format!("{e:?}")),
     };
     let mut canon = Vec::new();
     for r in &recs {
@@ -405,7 +556,39 @@ fn col_name(c: usize) -> &'static str {
     }
 }
 
+/// input class of a known defect of the BCF codec, re-derived from the data set: a FORMAT vector
+/// field (not GT) whose samples carry different numbers of values (a missing field counts as one)
+fn ragged_format_vector(p: &Prepared) -> Option<String> {
+    for l in &p.spec.lines {
+        let cols: Vec<&str> = l.split('\t').collect();
+        if cols.len() < 11 {
+            continue;
+        }
+        let keys: Vec<&str> = cols[8].split(':').collect();
+        for (ki, k) in keys.iter().enumerate() {
+            if *k == "GT" {
+                continue;
+            }
+            let counts: Vec<usize> = cols[9..].iter().map(|s| s.split(':').nth(ki).map(|v| v.split(',').count()).unwrap_or(1)).collect();
+            if counts.iter().max() != counts.iter().min() {
+                return Some(format!("{k} in `{}`", cols[8..].join(" ")));
+            }
+        }
+    }
+    None
+}
+
 fn check_convert(p: &Prepared, src: &str, dst: &str) -> V {
+    let r = check_convert0(p, src, dst);
+    if let (Err((tag, d)), "bcf", "bcf", Some(cls)) = (&r, family(src), family(dst), ragged_format_vector(p)) {
+        if !tag.starts_with("detect-") && !tag.starts_with("write-") || tag.contains("-error") {
+            return bad("convert-bcf-to-bcf-ragged-format-vector", format!("{src}->{dst} {cls}: {tag} {d}"));
+        }
+    }
+    r
+}
+
+fn check_convert0(p: &Prepared, src: &str, dst: &str) -> V {
     let recs: Vec<&dyn vcf::variant::Record> = p.recs.iter().map(|r| r as &dyn vcf::variant::Record).collect();
     let bytes = match g(&format!("write-{src}"), std::panic::AssertUnwindSafe(|| write_generic(src, &p.header, &recs)))? {
         Ok(b) => b,
@@ -568,8 +751,8 @@ pub const RDRS: [&str; 12] = ["c", "b1", "b2", "b3", "b4", "b5", "b8", "b64", "s
 pub fn generate(rng: &mut Rng, tier: &str, w: &mut CaseWriter) {
     let thorough = tier == "thorough";
     let counts: &[usize] = if thorough { &[0, 1, 2, 3, 5, 8, 13, 20] } else { &[0, 1, 3, 20] };
-    for code in FMTS {
-        for hdr in 0..3u64 {
+    for code in ALL {
+        for hdr in 0..4u64 {
             for &n in counts {
                 let reps = if thorough { 6 } else { 1 };
                 for _ in 0..reps {
@@ -582,7 +765,7 @@ pub fn generate(rng: &mut Rng, tier: &str, w: &mut CaseWriter) {
         for rdr in RDRS {
             let reps = if thorough { 4 } else { 1 };
             for _ in 0..reps {
-                w.push("vrt", vec![code.into(), rng.next().to_string(), rng.range(0, 6).to_string(), rng.below(3).to_string(), rdr.into()]);
+                w.push("vrt", vec![code.into(), rng.next().to_string(), rng.range(0, 6).to_string(), rng.below(4).to_string(), rdr.into()]);
             }
         }
     }
@@ -593,18 +776,21 @@ pub fn generate(rng: &mut Rng, tier: &str, w: &mut CaseWriter) {
             }
         }
     }
-    for code in FMTS {
+    for code in ALL {
         for i in 0..(if thorough { 12 } else { 3 }) {
             let n = if i == 0 { 0 } else { rng.range(1, 12) };
-            w.push("vas", vec![code.into(), rng.next().to_string(), n.to_string(), (i % 3).to_string()]);
+            w.push("vas", vec![code.into(), rng.next().to_string(), n.to_string(), (i % 4).to_string()]);
         }
     }
-    let reps = if thorough { 12 } else { 2 };
+    // conversions: every source -> every target (targets include the builder defaults); most
+    // with the rich data model
+    let reps = if thorough { 16 } else { 4 };
     for src in FMTS {
-        for dst in FMTS {
+        for dst in ALL {
             for i in 0..reps {
-                let n = if i == 0 { 0 } else { rng.range(1, 20) };
-                w.push("vcv", vec![src.into(), dst.into(), rng.next().to_string(), n.to_string(), rng.below(3).to_string()]);
+                let n = if i == 0 { 0 } else { rng.range(3, 20) };
+                let hdr = if i <= 1 { rng.below(3) } else { 3 };
+                w.push("vcv", vec![src.into(), dst.into(), rng.next().to_string(), n.to_string(), hdr.to_string()]);
             }
         }
     }
@@ -615,6 +801,14 @@ pub fn run(c: &Case) -> Obs {
         "vrt" => {
             let p = prepare(c.u(1), c.u(2) as usize, c.u(3))?;
             check_roundtrip(&p, &c.args[0], &c.args[4])
+        }
+        "vtx" => {
+            let p = prepare_spec(spec_of_text(&c.b(1)))?;
+            check_roundtrip(&p, &c.args[0], &c.args[2])
+        }
+        "vcx" => {
+            let p = prepare_spec(spec_of_text(&c.b(2)))?;
+            check_convert(&p, &c.args[0], &c.args[1])
         }
         "vas" => {
             let p = prepare(c.u(1), c.u(2) as usize, c.u(3))?;
@@ -627,7 +821,7 @@ pub fn run(c: &Case) -> Obs {
         _ => bad("harness-unknown-kind", c.kind.clone()),
     })();
     let nontrivial = match c.kind.as_str() {
-        "vrt" | "vas" => true,
+        "vrt" | "vas" | "vtx" | "vcx" => true,
         _ => c.u(3) > 0,
     };
     Obs::ok("-", nontrivial).with_verdict(r)
